@@ -53,9 +53,12 @@ def make_conf(opts):
             c += 'memory_cache_shared on\n'
         if cache in ('ufs', 'both'):
             c += 'cache_dir ufs @RUN@/cache/ufs %d 4 4\n' % opts.get('ufs_mb', 64)
+        if cache == 'ufs2':   # two ufs cache_dirs; the first one takes small objects only, so both are populated unevenly
+            c += 'cache_dir ufs @RUN@/cache/ufs %d 4 4 max-size=%d\n' % (opts.get('ufs_mb', 64), opts.get('ufs_small_max', 4096))
+            c += 'cache_dir ufs @RUN@/cache/ufsb %d 4 4\n' % opts.get('ufs_mb', 64)
         if cache in ('rock', 'both'):
             c += 'cache_dir rock @RUN@/cache/rock %d slot-size=%d\n' % (opts.get('rock_mb', 64), opts.get('rock_slot', 16384))
-        if cache in ('ufs', 'rock', 'both') and opts.get('store_log'):
+        if cache in ('ufs', 'ufs2', 'rock', 'both') and opts.get('store_log'):
             c += 'cache_store_log stdio:@RUN@/store.log\n'
     for l in opts.get('lines', []):
         c += l + '\n'
